@@ -68,10 +68,12 @@ def schema_proxy():
     return _SCHEMA['p']
 
 
-def new_parser(v: str, variant: str = 'default'):
+def new_parser(v: str, variant: str = 'default', default_collation: str | None = None):
     """a new parser instance; `variant` selects constructor options (used by the reuse histories)"""
     cls = parser_class(v)
     ns = dict(G.NAMESPACES)
+    if default_collation is not None and v != '1.0':
+        return cls(namespaces=ns, default_collation=default_collation)
     if variant == 'non-strict':
         return cls(namespaces=ns, strict=False)
     if v == '1.0' or variant == 'default':
@@ -218,13 +220,15 @@ def consume(val):
     return val
 
 
-def explore_one(v: str, src: str, kind: str) -> dict:
+def explore_one(v: str, src: str, kind: str, dc: str | None = None) -> dict:
     """parse with a fresh parser; if parsed: evaluate(ctx), get_results(ctx), select(ctx), evaluate(None)"""
     res: dict = {'v': v, 's': src, 'c': kind}
+    if dc is not None:
+        res['dc'] = dc
     holder = {}
 
     def do_parse():
-        holder['p'] = new_parser(v)
+        holder['p'] = new_parser(v, default_collation=dc)
         return holder['p'].parse(src)
 
     out, site, tok = guarded(do_parse)
@@ -367,7 +371,7 @@ def worker_main() -> None:
     for line in sys.stdin:
         req = json.loads(line)
         try:
-            res = explore_one(req['v'], req['s'], req['c'])
+            res = explore_one(req['v'], req['s'], req['c'], req.get('dc'))
         except BaseException as e:   # noqa
             res = {'v': req['v'], 's': req['s'], 'c': req['c'],
                    'steps': [('harness', f'ERR:OTHER:{type(e).__name__}', 'harness:' + str(e)[:100])]}
@@ -1173,6 +1177,15 @@ def gen_explore_cases(rng, n: int, matrix: str = 'classes') -> list[dict]:
         for v in VERSIONS:
             cases.append({'v': v, 's': s, 'c': 'doc', 'g': 'corpus'})
     if matrix != 'none':
+        for v in VERSIONS:
+            for s, tag in G.name_cases(v):
+                cases.append({'v': v, 's': s, 'c': 'doc', 'g': tag})
+        for v in (VERSIONS if matrix == 'pool' else ['2.0', '3.1']):
+            for s, tag, dc in G.collation_cases(v):
+                case = {'v': v, 's': s, 'c': 'doc', 'g': tag}
+                if dc is not None:
+                    case['dc'] = dc
+                cases.append(case)
         for v in (VERSIONS if matrix == 'pool' else ['1.0', '3.1']):
             for s, tag in G.magnitude_cases(v):
                 cases.append({'v': v, 's': s, 'c': 'doc', 'g': tag})
@@ -1236,6 +1249,8 @@ def judge_explored(run: Run, results: list[dict], count: bool = True) -> list[Di
     pending = []   # (case, out, site)
     for r in results:
         case = {'kind': 'explore', 'v': r['v'], 's': r['s'], 'c': r['c']}
+        if r.get('dc') is not None:
+            case['default_collation'] = r['dc']
         if count:
             st.case(case, nontrivial=len(r['steps']) > 1)
             st.count('explore:gen:' + r.get('g', '?').split(':')[0])
@@ -1385,7 +1400,7 @@ def shrink(d: Disagreement) -> Disagreement:
         tk = new_parser(v).tokenizer
 
         def fails(s: str) -> bool:
-            r = explore_many([{'v': v, 's': s, 'c': kind}], nworkers=1)[0]
+            r = explore_many([dict({'v': v, 's': s, 'c': kind}, **({'dc': case['default_collation']} if case.get('default_collation') is not None else {}))], nworkers=1)[0]
             return any(out == d.impl and site == d.site for _n, out, site in r['steps'])
 
         toks = [m.group() for m in tk.finditer(src)]
@@ -1437,7 +1452,7 @@ def replay(run: Run) -> int:
     case = fi['case']
     print('replaying', json.dumps(case)[:400])
     if case.get('kind') == 'explore':
-        r = explore_many([{'v': case['v'], 's': case['s'], 'c': case['c']}], nworkers=1)[0]
+        r = explore_many([dict({'v': case['v'], 's': case['s'], 'c': case['c']}, **({'dc': case['default_collation']} if case.get('default_collation') is not None else {}))], nworkers=1)[0]
         print('steps:', r['steps'])
         bad = [s for s in r['steps'] if s[1].startswith(('ERR:OTHER', 'ERR:NOCODE'))]
         return 1 if bad else 0
